@@ -379,9 +379,9 @@ pub fn replay_all(case: &Value) -> Vec<(String, String)> {
         Ok(c) if c.regen.is_some() => {
             let (tier_name, seed, shard, run) = c.regen.clone().unwrap();
             let mut scratch = Tally::default();
-            let (case, _, _, _) = gen_case(seed, shard, run, &tier(&tier_name), &mut scratch);
-            let _ = judge(&case);
-            Vec::new()
+            // what the regenerated scenario itself observed (a history entry's own failures are
+            // ignored by the caller; as the LAST case of a replay they are the verdict)
+            run_one(&tier_name, seed, shard, run, &tier(&tier_name), &mut scratch)
         }
         Ok(c) => judge_with(&c, true).into_iter().map(|f| (f.clause, f.detail)).collect(),
         Err(e) => vec![("harness:bad-case".into(), e.to_string())],
@@ -659,6 +659,72 @@ pub fn case_json(tier_name: &str, seed: u64, shard: usize, run: usize) -> Option
     Some(json!({"check": "C18", "case": Case { from: [0.0; 6], to: [1.0; 6], draws: vec![], tasks: 1, cfg: None, ctor: 0, prelude: None, gen_calls: 0, via_pool: false, regen: Some((tier_name.to_string(), seed, shard, run)) }}))
 }
 
+/// Everything the shard does for scenario (shard, run), in order: generation (which calls the
+/// sampler), the sample call, every observed call, and minimisation of failures (more calls). The
+/// history replay of a later failure runs exactly this, so that whatever the sampler keeps from
+/// call to call has seen the same calls.
+fn run_one(tier_name: &str, seed: u64, shard: usize, run: usize, t: &Tier, tally: &mut Tally) -> Vec<(String, String)> {
+    let mut observed: Vec<(String, String)> = Vec::new();
+    let (case, c, from, to) = gen_case(seed, shard, run, t, tally);
+    tally.evaluations += case.draws.len() as u64;
+    let any_wrap = (0..6).any(|j| from[j] > to[j]);
+    for r in &case.draws {
+        let mut words: Vec<u64> = Vec::with_capacity(20);
+        let mut adversarial = false;
+        for o in r.iter() {
+            let key = match o {
+                Out::U(_) => "draws_uniform_or_grid",
+                Out::Low => "fault_draw_exactly_low",
+                Out::HighMinus => "fault_draw_largest_below_high",
+                Out::Abs(_) => "fault_draw_absolute",
+            };
+            tally.bump(key, 1);
+            words.push(match o {
+                Out::U(u) => u.to_bits(),
+                Out::Low => 1,
+                Out::HighMinus => 2,
+                Out::Abs(v) => v.to_bits(),
+            });
+            adversarial |= !matches!(o, Out::U(_));
+        }
+        if any_wrap || adversarial {
+            for j in 0..6 {
+                words.push(from[j].to_bits());
+                words.push(to[j].to_bits());
+            }
+            let h = ((simctx::mix(&words) as u128) << 64) | simctx::mix(&[simctx::mix(&words), 7]) as u128;
+            tally.distinct.insert(h);
+        }
+    }
+    if run < 2 {
+        let v = call(&c, &case.draws[4.min(case.draws.len() - 1)]).ok();
+        tally.samples.push(json!({"from": from, "to": to, "draws": case.draws[4.min(case.draws.len() - 1)], "sampled": v, "rows_for_this_set": case.draws.len()}));
+    }
+    let fails = judge(&case);
+    let mut seen = std::collections::BTreeSet::new();
+    for f in fails {
+        if !seen.insert((f.clause.clone(), f.signature.clone())) {
+            continue;
+        }
+        tally.bump("raw_failures", 1);
+        observed.push((f.clause.clone(), f.detail.clone()));
+        let min = minimise_case(&case, &f);
+        let detail = judge(&min).into_iter().find(|g| g.clause == f.clause && g.signature == f.signature).map(|g| g.detail).unwrap_or(f.detail.clone());
+        tally.violations.push(Violation {
+            property: "C18".into(),
+            clause: f.clause.clone(),
+            signature: f.signature.clone(),
+            detail,
+            // fallback form: "scenario (shard, run) again, exactly as the shard ran it" (minimising
+            // in the shard is done against whatever state earlier calls left in the sampler, and
+            // the calls made while the scenario was generated are part of that state)
+            case: json!({"check": "C18", "case": min, "fallback": case_json(tier_name, seed, shard, run)}),
+            origin: Some((shard, run)),
+        });
+    }
+    observed
+}
+
 pub fn run(tier_name: &str, seed: u64) -> i32 {
     let t = tier(tier_name);
     let started = std::time::Instant::now();
@@ -666,59 +732,7 @@ pub fn run(tier_name: &str, seed: u64) -> i32 {
         let mut tally = Tally::default();
         for run in 0..t.sets_per_shard {
             report::progress(shard, run);
-            let (case, c, from, to) = gen_case(seed, shard, run, &t, &mut tally);
-            tally.evaluations += case.draws.len() as u64;
-            let any_wrap = (0..6).any(|j| from[j] > to[j]);
-            for r in &case.draws {
-                let mut words: Vec<u64> = Vec::with_capacity(20);
-                let mut adversarial = false;
-                for o in r.iter() {
-                    let key = match o {
-                        Out::U(_) => "draws_uniform_or_grid",
-                        Out::Low => "fault_draw_exactly_low",
-                        Out::HighMinus => "fault_draw_largest_below_high",
-                        Out::Abs(_) => "fault_draw_absolute",
-                    };
-                    tally.bump(key, 1);
-                    words.push(match o {
-                        Out::U(u) => u.to_bits(),
-                        Out::Low => 1,
-                        Out::HighMinus => 2,
-                        Out::Abs(v) => v.to_bits(),
-                    });
-                    adversarial |= !matches!(o, Out::U(_));
-                }
-                if any_wrap || adversarial {
-                    for j in 0..6 {
-                        words.push(from[j].to_bits());
-                        words.push(to[j].to_bits());
-                    }
-                    let h = ((simctx::mix(&words) as u128) << 64) | simctx::mix(&[simctx::mix(&words), 7]) as u128;
-                    tally.distinct.insert(h);
-                }
-            }
-            if tally.samples.len() < 2 {
-                let v = call(&c, &case.draws[4.min(case.draws.len() - 1)]).ok();
-                tally.samples.push(json!({"from": from, "to": to, "draws": case.draws[4.min(case.draws.len() - 1)], "sampled": v, "rows_for_this_set": case.draws.len()}));
-            }
-            let fails = judge(&case);
-            let mut seen = std::collections::BTreeSet::new();
-            for f in fails {
-                if !seen.insert((f.clause.clone(), f.signature.clone())) {
-                    continue;
-                }
-                tally.bump("raw_failures", 1);
-                let min = minimise_case(&case, &f);
-                let detail = judge(&min).into_iter().find(|g| g.clause == f.clause && g.signature == f.signature).map(|g| g.detail).unwrap_or(f.detail.clone());
-                tally.violations.push(Violation {
-                    property: "C18".into(),
-                    clause: f.clause.clone(),
-                    signature: f.signature.clone(),
-                    detail,
-                    case: json!({"check": "C18", "case": min}),
-                    origin: Some((shard, run)),
-                });
-            }
+            let _ = run_one(tier_name, seed, shard, run, &t, &mut tally);
         }
         tally
     });
